@@ -204,3 +204,11 @@ def variant_of(g, path_render):
             if a[0] == "is" and render(a[1]) == path_render:
                 names |= set(a[2])
     return names or None
+
+
+def agg_fields(term, adt_suffix=None):
+    """{field: rendered operand} of the first aggregate (optionally of the ADT whose path ends with adt_suffix) in term"""
+    for s_ in mir.subterms(term):
+        if s_[0] == "agg" and s_[2] and (adt_suffix is None or s_[1].endswith(adt_suffix)):
+            return {k: render(v) for k, v in zip(s_[2], s_[3])}
+    return {}
